@@ -147,19 +147,19 @@ inductive Arg
   | vararg (g : GTy)
 deriving DecidableEq, Repr
 
-/-- the argument types lined up with the parameters (`n` parameters are still unmatched):
+/-- the argument types lined up with the parameters `ps` still unmatched:
 a call that is not the last argument contributes its first value, the last one all of them
-(`infer_generic_types_from_call` matches `func_params[i..]` against the multi-return) -/
-def expandArgs : Nat → List Arg → List GTy
+(`infer_generic_types_from_call` matches `func_params[i..]` against the multi-return). -/
+def expandArgs : List GTy → List Arg → List GTy
   | _, [] => []
   | _, [.multi gs] => gs
-  | n, [.vararg g] => List.replicate n g
-  | n, .one g :: rest => g :: expandArgs (n - 1) rest
-  | n, .multi gs :: rest => gs.headD (.base (.prim .nil)) :: expandArgs (n - 1) rest
-  | n, .vararg g :: rest => g :: expandArgs (n - 1) rest
+  | ps, [.vararg g] => List.replicate ps.length g
+  | ps, .one g :: rest => g :: expandArgs ps.tail rest
+  | ps, .multi gs :: rest => gs.headD (.base (.prim .nil)) :: expandArgs ps.tail rest
+  | ps, .vararg g :: rest => g :: expandArgs ps.tail rest
 
 /-- inferred type of `f(args…)` with argument expressions -/
 def inferCallA (params : List GTy) (args : List Arg) (ret : GTy) : GTy :=
-  inferCall params (expandArgs params.length args) ret
+  inferCall params (expandArgs params args) ret
 
 end TyM
